@@ -22,7 +22,7 @@ from fractions import Fraction
 from .. import corpus, project
 from ..codec import load_db, validate
 from ..common import SPEC, Check, workdir
-from ..gen_db import load_raw
+from ..gen_db import frac, load_raw
 from ..tlc import run_tlc, run_trace_tlc
 
 LEVEL = "model_checking"
@@ -96,6 +96,31 @@ def bind(chk: Check, tier: str, seed: int):
                 for name, c in corpus.boundary_codes(f):
                     if name in ("lo", "hi", "mid", "sentinel", "minus1", "lo+1"):
                         payloads.append((f"{i+1}:{name}", corpus.build_payload(d, {i: c})))
+        # values whose converted number lies just beside a rounding boundary of the conversion's grid (x.495 / x.505
+        # of a grid step): a second rounding on the way, or a wrong rounding mode, shows only there
+        for i, f in enumerate(d["fields"]):
+            if f["qty"] in convertible and f["off"] >= 0 and f["kind"] == "num" and f["resDen"] > 0:
+                res = Fraction(f["resNum"], f["resDen"])
+                off = frac(raw_by_id[d["id"]]["Fields"][i].get("Offset", 0))
+                lo_t, hi_t = corpus.sm_int(f["lo"]), corpus.sm_int(f["hi"])
+                for cv in conv:
+                    if cv["qty"] != f["qty"] or cv["gNum"] == 0:
+                        continue
+                    grid = Fraction(cv["gNum"], cv["gDen"])
+                    a = Fraction(cv["aNum"], cv["aDen"]) if cv["aDen"] else Fraction(cv["aNum"]) / PI_LO
+                    b = Fraction(cv["bNum"], cv["bDen"])
+                    y_lo, y_hi = sorted(((lo_t * res + off) * a + b, (hi_t * res + off) * a + b))
+                    ks = range(int(y_lo / grid) + 1, int(y_hi / grid))
+                    if len(ks) < 3:
+                        continue
+                    for k in rng.sample(list(ks), min(len(ks), {"quick": 4, "thorough": 20, "selftest": 2}[tier])):
+                        for eps in (Fraction(-1, 100), Fraction(1, 100), Fraction(-1, 250), Fraction(1, 250)):
+                            x = ((k + Fraction(1, 2) + eps) * grid - b) / a
+                            t = round((x - off) / res)
+                            if lo_t <= t <= hi_t:
+                                c = corpus.ticks_to_code(f, t)
+                                if c is not None:
+                                    payloads.append((f"{i+1}:tie{cv['want']}", corpus.build_payload(d, {i: c})))
         for k in range({"quick": 2, "thorough": 12, "selftest": 1}[tier]):
             payloads.append((f"rand{k}", corpus.build_payload(d, {}, rng)))
         for tag, payload in payloads:
